@@ -101,6 +101,7 @@ class Domain:
   max_states = 48
   inline_depth = 12
   assume_loops_execute = False
+  assume_finite_lt_inf = False
 
   # -- payload constructors
   def top(self, node=None):
@@ -743,17 +744,16 @@ class Engine:
       may_skip = self.dom.loop_may_skip(stmt, itv, st)
       if itv.elts is not None and len(itv.elts) > 0:
         may_skip = False
-    head = st
-    exits = []
-    body_flow = None
-    for iteration in range(12):
+    def one_pass(head, first):
+      """one iteration from `head`: (states leaving the loop without
+      entering the body, flow of the body)"""
       s = head.copy()
       s.aux = self.dom.aux_copy(s.aux)
       if is_for:
         ev = self.dom.iter_elem(itv, stmt, s)
         self.assign(stmt.target, ev, s, func, stmt)
         entered = [s]
-        exit_now = [head.copy()] if (may_skip or iteration > 0) else []
+        exit_now = [head.copy()] if (may_skip or not first) else []
       else:
         val = self.eval(stmt.test, s, func)
         t = self.truth(val)
@@ -767,44 +767,51 @@ class Engine:
           s3 = s.copy()
           if self.refine(stmt.test, False, s3, func):
             exit_now = [s3]
-      bf = self.exec_block(stmt.body, entered, func) if entered else Flow()
-      body_flow = bf
-      back = bf.normal + bf.continues
-      new_head = self.join_states([head] + back)
-      exits_iter = exit_now
-      if self.states_equal(new_head, head):
-        break
-      head = new_head
-      if iteration >= 8:
-        # widen: drop facts that keep changing
-        for k, v in list(head.vars.items()):
-          if isinstance(v, V):
-            head.vars[k] = v.with_(c=NOCONST)
-    # final pass results come from last iteration on the stable head
-    bf = body_flow or Flow()
-    f.returns.extend(bf.returns)
-    f.raises.extend(bf.raises)
+        if first and not self.dom.loop_may_skip(stmt, None, st):
+          exit_now = []       # the domain knows the body runs at least once
+      bf_ = self.exec_block(stmt.body, entered, func) if entered else Flow()
+      return exit_now, bf_
+
+    # the first iteration is analysed from the entry state alone (loop
+    # peeling): what holds only before the loop (a local still unbound, a
+    # bound still +inf) is not mixed into the later iterations
+    exit0, bf0 = one_pass(st, True)
+    flows = [bf0]
+    exits_all = list(exit0)
+    back0 = bf0.normal + bf0.continues
+    last_back = list(back0)
+    if back0:
+      head = self.join_states([x.copy() for x in back0])
+      bf = Flow()
+      exit_i = []
+      for iteration in range(12):
+        exit_i, bf = one_pass(head, False)
+        back = bf.normal + bf.continues
+        new_head = self.join_states([head] + back)
+        if self.states_equal(new_head, head):
+          break
+        head = new_head
+        if iteration >= 8:
+          # widen: drop facts that keep changing
+          for k, v in list(head.vars.items()):
+            if isinstance(v, V):
+              head.vars[k] = v.with_(c=NOCONST)
+      flows.append(bf)
+      exits_all.extend(exit_i)
+      last_back = list(back0) + list(bf.normal + bf.continues)
+    for fl in flows:
+      f.returns.extend(fl.returns)
+      f.raises.extend(fl.raises)
     if is_for:
       normal_exit = []
       if may_skip:
-        normal_exit.append(head.copy())
-      normal_exit.extend(s.copy() for s in bf.normal + bf.continues)
-      if not may_skip and not (bf.normal + bf.continues):
-        normal_exit = []
+        normal_exit.append(st.copy())
+      normal_exit.extend(s.copy() for s in last_back)
     else:
-      normal_exit = exits_iter
-      if not self.dom.loop_may_skip(stmt, None, st):
-        # the body runs at least once: the loop is left from a state reached
-        # through the body, never from the entry state alone
-        back = bf.normal + bf.continues
-        normal_exit = []
-        if back:
-          sb = self.join_states([x.copy() for x in back])
-          val = self.eval(stmt.test, sb, func)
-          if self.truth(val) is not True:
-            s3 = sb.copy()
-            if self.refine(stmt.test, False, s3, func):
-              normal_exit = [s3]
+      normal_exit = exits_all
+    bf = Flow()
+    for fl in flows:
+      bf.breaks.extend(fl.breaks)
     if stmt.orelse and normal_exit:
       ef = self.exec_block(stmt.orelse, self._merge(normal_exit), func)
       normal_exit = ef.normal
@@ -1107,6 +1114,8 @@ class Engine:
         if cd == 'numpy.newaxis':
           v.c = frozenset([None])
           v.ty = 'none'
+        if cd == 'numpy.inf':
+          v.c = frozenset([float('inf')])
       return v
     objv = self.eval(e.value, st, func)
     r = self.load_attr(objv, e.attr, e, st, func)
@@ -1347,6 +1356,17 @@ class Engine:
       return res if isinstance(op, ast.In) else not res
     if isinstance(op, (ast.Lt, ast.LtE, ast.Gt, ast.GtE)):
       a, b = l.const(), r.const()
+      # x < inf for a computed (finite) x: only in domains that state the
+      # assumption (objective values are finite: asserted by the repository,
+      # NaN / inf excluded by the properties' quantifiers)
+      if getattr(self.dom, 'assume_finite_lt_inf', False):
+        inf = float('inf')
+        if isinstance(op, ast.Lt) and b == inf and a is NOCONST and \
+                l.ty not in ('none', 'str'):
+          return True
+        if isinstance(op, ast.Gt) and a == inf and b is NOCONST and \
+                r.ty not in ('none', 'str'):
+          return True
       if a is not NOCONST and b is not NOCONST and \
               isinstance(a, (int, float)) and isinstance(b, (int, float)):
         return {ast.Lt: a < b, ast.LtE: a <= b, ast.Gt: a > b,
